@@ -67,8 +67,9 @@ def generate(rng, tier, run, seed=0):
     allowed = V.charset(case['charset'], case['entry']['icvn'])
     other = None
     for _ in range(40):
-        d = [rng.choice(['~', '\n', '!', '\x1d', '\x1c', '+', "'", '{', '}']), rng.choice(['*', '|', '\t', '\x1f', ',', '^', '{', '}']),
-             rng.choice([':', ';', '?', '&', '>', '<', '\\', '@', '|', '!', '{', '}', '%'])]
+        d = [rng.choice(['~', '\n', '!', '\x1d', '\x1c', '+', "'", '{', '}', '*', ':']),
+             rng.choice(['*', '|', '\t', '\x1f', ',', '^', '{', '}', ':', '~', '\\']),
+             rng.choice([':', ';', '?', '&', '>', '<', '\\', '@', '|', '!', '{', '}', '%', '*', '*', '~', '^'])]      # roles exchanged too
         if len(set(d)) == 3 and not (set(d) & data) and d[2] in allowed and d != ['~', '*', ':'] and not (set(d) & set('~*:') - set(d[:0])
                                                                                                   and False):
             other = d
